@@ -135,6 +135,47 @@ UNITS = {
                      "RepairDnaGenProofs.v": ["repair_dna_gen"],
                      "RepairKnotGenProofs.v": ["repair_dna_source", "C09_clean_source", "C09_output_shape_source", "C10_returns_source"]},
     },
+    "score": {
+        "functions": translate_minipy.SCORE_FUNCS,
+        "generate": lambda repo, d: translate_minipy.generate_score(repo, os.path.join(d, "ScoreGen.v")),
+        "refuse": translate_minipy.Refuse,
+        "generated": "ScoreGen.v",
+        "stages": [["ScoreRepr.v"], ["ScoreLeavesGenProofs.v", "ScoreVerticesGenProofs.v"],
+                   ["IntersectionScoreGenProofs.v", "NastyArcGenProofs.v"], ["ScoreKnotGenProofs.v"]],
+        "deps": ["Py.v", "Kmer.v", "Convert.v", "Graph.v", "Score.v", "Spec.v", "GraphSpec.v", "MiniPyS.v", "MiniPySEnc.v",
+                 "Proofs/MiniPySLemmas.v", "Proofs/KmerProofs.v", "Proofs/GraphProofs.v", "Proofs/ReprProofs.v", "Proofs/ScoreProofs.v",
+                 "Proofs/ShuffleProofs.v", "Shuffle.v"],
+        "theorems": {"ScoreLeavesGenProofs.v": ["leaves_map_gen"], "ScoreVerticesGenProofs.v": ["obtain_vertices_gen_any"],
+                     "IntersectionScoreGenProofs.v": ["calculate_intersection_score_gen"],
+                     "NastyArcGenProofs.v": ["remove_nasty_arc_gen"],
+                     "ScoreKnotGenProofs.v": ["py6_calculate_intersection_score", "py6_remove_nasty_arc", "C19_scores_source",
+                                              "C19_step_source", "C19_total_source", "run_removals_source", "C19_history_source"]},
+    },
+    "matrix": {
+        "functions": translate_minipy.MATRIX_FUNCS,
+        "generate": lambda repo, d: translate_minipy.generate_matrix(repo, os.path.join(d, "MatrixGen.v")),
+        "refuse": translate_minipy.Refuse,
+        "generated": "MatrixGen.v",
+        "stages": [["MatrixRepr.v"], ["MatrixKmerGenProofs.v"], ["ToMatrixGenProofs.v", "FromMatrixGenProofs.v"],
+                   ["MatrixKnotGenProofs.v"]],
+        "deps": ["Py.v", "Kmer.v", "Convert.v", "Graph.v", "Spec.v", "GraphSpec.v", "MiniPyM.v", "MiniPyMEnc.v",
+                 "Proofs/MiniPyMLemmas.v", "Proofs/KmerProofs.v", "Proofs/GraphProofs.v", "Proofs/ReprProofs.v", "Proofs/LegalProofs.v"],
+        "theorems": {"MatrixKmerGenProofs.v": ["obtain_latters_gen"], "ToMatrixGenProofs.v": ["accessor_to_adjacency_matrix_gen"],
+                     "FromMatrixGenProofs.v": ["adjacency_matrix_to_accessor_gen"],
+                     "MatrixKnotGenProofs.v": ["ext_sorted_ok", "py7_to_matrix", "py7_from_matrix", "C14_matrix_content_source",
+                                               "C14_matrix_roundtrip_source", "C14_matrix_reject_source",
+                                               "C13_legal_from_matrix_source"]},
+    },
+    "capacity": {
+        "enabled": False,                      # switched on once every proof file of the unit is complete
+        "functions": translate_minipy.CAPACITY_FUNCS,
+        "generate": lambda repo, d: translate_minipy.generate_capacity(repo, os.path.join(d, "CapacityGen.v")),
+        "refuse": translate_minipy.Refuse,
+        "generated": "CapacityGen.v",
+        "stages": [["CapacityRepr.v"], ["CapacityGenProofs.v"], ["CapacityKnotGenProofs.v"]],
+        "deps": ["Py.v", "Capacity.v", "Thresholds.v", "MiniPyC.v", "MiniPyCEnc.v", "Proofs/MiniPyCLemmas.v"],
+        "theorems": {},
+    },
     "biofilter": {
         "functions": translate_minipy.BIOFILTER_FUNCS,
         "generate": lambda repo, d: translate_minipy.generate_biofilter(repo, os.path.join(d, "BiofilterGen.v")),
@@ -281,9 +322,11 @@ def run_unit(name, repo, use_cache=True, keep=None):
                     out["failed_file"] = f
                     return out
         out.update(proved=True, closed=closed, seconds=round(time.time() - t0, 1))
-        if name in ("operation", "biofilter", "coder", "graph", "coding", "repair"):
+        if name in ("operation", "biofilter", "coder", "graph", "coding", "repair", "score", "matrix", "capacity"):
             sem = {"operation": semantics_check, "biofilter": semantics_check_filter, "coder": semantics_check_coder,
-                   "graph": semantics_check_graph, "coding": semantics_check_coding, "repair": semantics_check_repair}[name](
+                   "graph": semantics_check_graph, "coding": semantics_check_coding, "repair": semantics_check_repair,
+                   "score": semantics_check_score, "matrix": semantics_check_matrix,
+                   "capacity": semantics_check_capacity}[name](
                 work, repo, int(os.environ.get("VERIF_SEED", "0") or 0))
             out["minipy_semantics_vs_cpython"] = sem
             if sem.get("error") or sem.get("disagreements") or not sem.get("compared"):
@@ -873,6 +916,307 @@ def semantics_check_repair(work, repo, seed=0, n=120):
         for hs, w in zip(res["hash_seeds"], wants):
             if g != w[i] and len(res["disagreements"]) < 5:
                 res["disagreements"].append({"function": f, "args": args, "hash_seed": hs, "minipy": g[:40], "cpython": w[i][:40]})
+    return res
+
+
+def semantics_check_score(work, repo, seed=0, n=70):
+    """calculate_intersection_score / remove_nasty_arc: MiniPyS interpreter (vm_compute) against CPython + NumPy; also checks the
+    float assumption behind BIntLogRatio (int(log(4**k) / log(4)) == k for k = 0..30)"""
+    import random
+    rng = random.Random(1000003 * seed + 97)
+    cases = []
+    for _ in range(n):
+        k = rng.choice([1, 1, 2, 2, 2])
+        nn = 4 ** k
+        keep = rng.choice([0.4, 0.7, 0.9, 1.0])
+        rows = [[(4 * v + j) % nn if rng.random() < keep else -1 for j in range(4)] if rng.random() < 0.85 else [-1] * 4 for v in range(nn)]
+        lm = [[v, [x for x in r if x >= 0]] for v, r in enumerate(rows) if any(x >= 0 for x in r)]
+        if rng.random() < 0.5:
+            cases.append(("calculate_intersection_score", [{"dict": lm}, k, rng.random() < 0.5, rng.random() < 0.5, rng.random() < 0.2]))
+        else:
+            lm2 = [[a, list(b)] for a, b in lm]
+            if lm2 and rng.random() < 0.15:
+                lm2.pop(rng.randrange(len(lm2)))          # a latter map that is not the accessor's
+            cases.append(("remove_nasty_arc", [{"arr2": rows}, {"dict": lm2}, 0, rng.random() < 0.5, rng.random() < 0.5, False]))
+    # outcomes that raise: no arc at all, a single arc (no positive score), a latter map without the chosen vertex / successor
+    for kk in (1, 2):
+        nn = 4 ** kk
+        empty = [[-1] * 4 for _ in range(nn)]
+        cases.append(("remove_nasty_arc", [{"arr2": empty}, {"dict": []}, 0, True, True, False]))
+        one = [r[:] for r in empty]
+        one[1][2] = (4 * 1 + 2) % nn
+        cases.append(("remove_nasty_arc", [{"arr2": one}, {"dict": [[1, [one[1][2]]]]}, 0, True, True, False]))
+        full = [[(4 * v + j) % nn for j in range(4)] for v in range(nn)]
+        lmf = [[v, list(r)] for v, r in enumerate(full)]
+        cases.append(("remove_nasty_arc", [{"arr2": full}, {"dict": lmf[1:]}, 0, True, True, False]))
+        cases.append(("remove_nasty_arc", [{"arr2": full}, {"dict": [[v, r[1:]] for v, r in lmf]}, 0, True, False, False]))
+        cases.append(("calculate_intersection_score", [{"dict": [[nn + 3, [1, 2]]]}, kk, True, True, False]))
+    lines = ["From DSW Require Import MiniPyS MiniPySEnc.", "From DSWGen Require Import ScoreGen.", "Open Scope Z_scope."]
+    for f, args in cases:
+        lines.append('Eval vm_compute in enc_res (call_in score_module 300 "%s"%%string [%s]).'
+                     % (f, "; ".join(_coq_gval(a) for a in args)))
+    open(os.path.join(work, "SemCasesScore.v"), "w").write("\n".join(lines) + "\n")
+    rc, log = _compile(work, "SemCasesScore.v")
+    if rc != 0:
+        return {"cases": len(cases), "compared": 0, "error": log[-600:]}
+    got = [[int(x) for x in re.findall(r"-?\d+", blk.split(": list Z")[0])] for blk in log.split("= ")[1:]]
+    if len(got) != len(cases):
+        return {"cases": len(cases), "compared": 0, "error": "parsed %d answers for %d cases" % (len(got), len(cases))}
+    prog = ("import sys, json, io, contextlib\nsys.path.insert(0, %r)\nimport numpy as np\nimport dsw\n"
+            "from math import log as mlog\n"
+            "EX = {ValueError: 1, IndexError: 2, TypeError: 3, OverflowError: 4, KeyError: 5}\n"
+            "def conv(a):\n"
+            "    if isinstance(a, dict):\n"
+            "        if 'arr2' in a: return np.array(a['arr2'], dtype=int).reshape((-1, 4))\n"
+            "        if 'dict' in a: return {k: list(v) for k, v in a['dict']}\n"
+            "    return a\n"
+            "def enc(v):\n"
+            "    if isinstance(v, np.ndarray):\n"
+            "        out = [7, len(v)]\n"
+            "        for x in v: out += enc(x)\n"
+            "        return out\n"
+            "    if isinstance(v, dict):\n"
+            "        out = [8, len(v)]\n"
+            "        for k, x in v.items(): out += enc(k) + enc(x)\n"
+            "        return out\n"
+            "    if isinstance(v, (bool, np.bool_)): return [5, int(v)]\n"
+            "    if isinstance(v, (int, np.integer)): return [0, int(v)]\n"
+            "    if isinstance(v, (list, tuple)):\n"
+            "        out = [2 if isinstance(v, list) else 3, len(v)]\n"
+            "        for x in v: out += enc(x)\n"
+            "        return out\n"
+            "    return [4] if v is None else [99]\n"
+            "out = []\n"
+            "for f, a in json.load(sys.stdin):\n"
+            "    try:\n"
+            "        with contextlib.redirect_stdout(io.StringIO()):\n"
+            "            r = getattr(dsw, f)(*[conv(x) for x in a])\n"
+            "        out.append([0] + enc(r))\n"
+            "    except Exception as e:\n"
+            "        out.append([1, EX.get(type(e), 6)])\n"
+            "from numpy import log\n"
+            "print(json.dumps({'out': out, 'log_ok': all(int(log(4 ** k) / log(4)) == k for k in range(0, 31))}))\n" % (repo,))
+    p = subprocess.run(["/venv/bin/python", "-c", prog], input=json.dumps(cases), stdout=subprocess.PIPE, stderr=subprocess.PIPE,
+                       universal_newlines=True, env=dict(os.environ, PYTHONHASHSEED="0"))
+    if p.returncode != 0:
+        return {"cases": len(cases), "compared": 0, "error": p.stderr[-600:]}
+    ans = json.loads(p.stdout)
+    want = ans["out"]
+    res = {"cases": len(cases), "compared": 0, "stuck": 0, "fuel": 0, "disagreements": [], "per_function": {}, "raised": 0,
+           "int_log_ratio_exact_for_4^0..4^30": ans["log_ok"]}
+    if not ans["log_ok"]:
+        res["disagreements"].append({"function": "int(log(4**k)/log(4))", "note": "not the exact exponent for some k <= 30"})
+    for (f, args), g, w in zip(cases, got, want):
+        if g[:1] == [3]:
+            res["stuck"] += 1
+            continue
+        if g[:1] == [2]:
+            res["fuel"] += 1
+            continue
+        res["compared"] += 1
+        res["raised"] += int(w[:1] == [1])
+        res["per_function"][f] = res["per_function"].get(f, 0) + 1
+        if g != w and len(res["disagreements"]) < 5:
+            res["disagreements"].append({"function": f, "args": args, "minipy": g[:40], "cpython": w[:40]})
+    return res
+
+
+def semantics_check_matrix(work, repo, seed=0, n=90):
+    """accessor_to_adjacency_matrix / adjacency_matrix_to_accessor: MiniPyM interpreter (vm_compute, external "__list_of_set__"
+    = ascending order) against CPython + NumPy; also checks, on CPython itself, the assumption the theorems make of the
+    iteration order of a set (MatrixRepr.set_order_ok): list(set(a) | set(b)) lists each element once, and in ascending order
+    when all elements are non-negative ints inside one aligned block of four"""
+    import random
+    rng = random.Random(1000003 * seed + 131)
+    cases = []
+    for _ in range(n):
+        k = rng.choice([1, 1, 2, 2])
+        nn = 4 ** k
+        keep = rng.choice([0.3, 0.6, 0.9, 1.0])
+        rows = [[(4 * v + j) % nn if rng.random() < keep else -1 for j in range(4)] if rng.random() < 0.85 else [-1] * 4 for v in range(nn)]
+        if rng.random() < 0.5:
+            r = rng.random()
+            if r < 0.15:                                      # an entry out of range
+                rows[rng.randrange(nn)][rng.randrange(4)] = rng.choice([-2, -3, nn, nn + 5])
+            elif r < 0.3:                                     # an arc that is no shift successor (still a fine accessor here)
+                rows[rng.randrange(nn)][rng.randrange(4)] = rng.randrange(nn)
+            width = 4 if rng.random() < 0.9 else rng.choice([3, 5])
+            if width != 4:
+                rows = [(rw + [-1])[:width] for rw in rows]
+            ml = rng.choice([8, 8, 8, k, k + 1, 0])
+            cases.append(("accessor_to_adjacency_matrix", [{"arr2": rows}, ml, rng.random() < 0.2]))
+        else:
+            mat = [[0] * nn for _ in range(nn)]
+            for v, rw in enumerate(rows):
+                for x in rw:
+                    if x >= 0:
+                        mat[v][x] = 1
+            r = rng.random()
+            if r < 0.25:                                      # a 1 that sits on no shift successor
+                mat[rng.randrange(nn)][rng.randrange(nn)] = 1
+            elif r < 0.35:                                    # an entry that is neither 0 nor 1
+                mat[rng.randrange(nn)][rng.randrange(nn)] = rng.choice([2, -1])
+            cases.append(("adjacency_matrix_to_accessor", [{"arr2": mat}, rng.random() < 0.2]))
+    lines = ["From DSW Require Import MiniPyM MiniPyMEnc.", "From DSWGen Require Import MatrixGen.", "Open Scope Z_scope."]
+    for f, args in cases:
+        lines.append('Eval vm_compute in enc_res (call_in_ext ext_sorted matrix_module 300 "%s"%%string [%s]).'
+                     % (f, "; ".join(_coq_gval(a) for a in args)))
+    open(os.path.join(work, "SemCasesMatrix.v"), "w").write("\n".join(lines) + "\n")
+    rc, log = _compile(work, "SemCasesMatrix.v")
+    if rc != 0:
+        return {"cases": len(cases), "compared": 0, "error": log[-600:]}
+    got = [[int(x) for x in re.findall(r"-?\d+", blk.split(": list Z")[0])] for blk in log.split("= ")[1:]]
+    if len(got) != len(cases):
+        return {"cases": len(cases), "compared": 0, "error": "parsed %d answers for %d cases" % (len(got), len(cases))}
+    prog = ("import sys, json, io, contextlib, random\nsys.path.insert(0, %r)\nimport numpy as np\nimport dsw\n"
+            "EX = {ValueError: 1, IndexError: 2, TypeError: 3, OverflowError: 4, KeyError: 5}\n"
+            "def conv(a):\n"
+            "    if isinstance(a, dict) and 'arr2' in a: return np.array(a['arr2'], dtype=int)\n"
+            "    return a\n"
+            "def enc(v):\n"
+            "    if isinstance(v, np.ndarray):\n"
+            "        out = [7, len(v)]\n"
+            "        for x in v: out += enc(x)\n"
+            "        return out\n"
+            "    if isinstance(v, (bool, np.bool_)): return [5, int(v)]\n"
+            "    if isinstance(v, (int, np.integer)): return [0, int(v)]\n"
+            "    return [4] if v is None else [99]\n"
+            "out = []\n"
+            "for f, a in json.load(sys.stdin):\n"
+            "    try:\n"
+            "        with contextlib.redirect_stdout(io.StringIO()):\n"
+            "            r = getattr(dsw, f)(*[conv(x) for x in a])\n"
+            "        out.append([0] + enc(r))\n"
+            "    except Exception as e:\n"
+            "        out.append([1, EX.get(type(e), 6)])\n"
+            "rng = random.Random(7)\n"
+            "order_ok, tried = True, 0\n"
+            "for _ in range(4000):\n"
+            "    base = 4 * rng.choice([rng.randrange(0, 64), rng.randrange(0, 4 ** 7), rng.randrange(0, 2 ** 40)])\n"
+            "    a = [base + rng.randrange(4) for _ in range(rng.randrange(0, 5))]\n"
+            "    b = [base + j for j in range(4)] if rng.random() < 0.7 else [base + rng.randrange(4) for _ in range(rng.randrange(0, 5))]\n"
+            "    u = list(set(a) | set(b))\n"
+            "    tried += 1\n"
+            "    order_ok = order_ok and u == sorted(set(a + b))\n"
+            "    c = [rng.randrange(0, 4 ** 7) for _ in range(rng.randrange(0, 9))]\n"
+            "    w = list(set(c) | set(b))\n"
+            "    order_ok = order_ok and sorted(w) == sorted(set(c + b)) and len(w) == len(set(w))\n"
+            "print(json.dumps({'out': out, 'order_ok': order_ok, 'tried': tried}))\n" % (repo,))
+    res = {"cases": len(cases), "compared": 0, "stuck": 0, "fuel": 0, "disagreements": [], "per_function": {}, "raised": 0}
+    want = None
+    for hs in ("0", "1", "random"):
+        p = subprocess.run(["/venv/bin/python", "-c", prog], input=json.dumps(cases), stdout=subprocess.PIPE, stderr=subprocess.PIPE,
+                           universal_newlines=True, env=dict(os.environ, PYTHONHASHSEED=hs))
+        if p.returncode != 0:
+            return {"cases": len(cases), "compared": 0, "error": p.stderr[-600:]}
+        ans = json.loads(p.stdout)
+        if not ans["order_ok"]:
+            res["disagreements"].append({"function": "list(set(a) | set(b))", "note": "CPython's set order does not meet set_order_ok"})
+        if want is not None and want != ans["out"]:
+            res["disagreements"].append({"function": "*", "note": "CPython's results depend on PYTHONHASHSEED"})
+        want = ans["out"]
+        res["cpython_set_order_assumption"] = {"held": ans["order_ok"], "samples": ans["tried"]}
+    for (f, args), g, w in zip(cases, got, want):
+        if g[:1] == [3]:
+            res["stuck"] += 1
+            continue
+        if g[:1] == [2]:
+            res["fuel"] += 1
+            continue
+        res["compared"] += 1
+        res["raised"] += int(w[:1] == [1])
+        res["per_function"][f] = res["per_function"].get(f, 0) + 1
+        if g != w and len(res["disagreements"]) < 5:
+            res["disagreements"].append({"function": f, "args": args, "minipy": g[:40], "cpython": w[:40]})
+    return res
+
+
+def semantics_check_capacity(work, repo, seed=0, n=60):
+    """approximate_capacity: MiniPyC interpreter (vm_compute, binary64) against CPython + NumPy, bit for bit.  The externals are
+    replaced on BOTH sides by the same stand-ins: log2 := identity (libm is not modelled), 10 ** t := the float CPython computes,
+    numpy.random.random := the next array of a given stream."""
+    import random
+    rng = random.Random(1000003 * seed + 173)
+    cases = []
+    for _ in range(n):
+        k = rng.choice([1, 1, 2, 2])
+        nn = 4 ** k
+        keep = rng.choice([0.0, 0.3, 0.6, 0.9, 1.0])
+        rows = [[(4 * v + j) % nn if rng.random() < keep else -1 for j in range(4)] if rng.random() < 0.85 else [-1] * 4 for v in range(nn)]
+        tol = rng.choice([-10, -10, -5, -3, -1])
+        repeats = rng.choice([1, 1, 2, 3])
+        maxit = rng.choice([1, 2, 3, 10, 40, 500])
+        stream = [[rng.random() for _ in range(nn)] for _ in range(repeats)]
+        cases.append({"rows": rows, "tol": tol, "repeats": repeats, "maxit": maxit, "process": rng.random() < 0.5,
+                      "verbose": rng.random() < 0.3, "stream": stream})
+    lines = ["From Coq Require Import PrimFloat.", "From DSW Require Import MiniPyC MiniPyCEnc.", "From DSWGen Require Import CapacityGen.",
+             "Open Scope Z_scope.",
+             "Definition ext (tol : float) (f : string) (args : list val) : res val :=",
+             '  if String.eqb f "__pow__" then match args with [VInt 10; VInt _] => Ret (VFloat tol) | _ => Stuck end',
+             '  else if String.eqb f "__log2__" then match args with [VFloat x] => Ret (VFloat x) | _ => Stuck end else Stuck.']
+    for c in cases:
+        arr2 = "(VArr [%s])" % "; ".join("(VArr [%s])" % "; ".join("(VInt (%d))" % x for x in row) for row in c["rows"])
+        stream = "(VList [%s])" % "; ".join("(VArr [%s])" % "; ".join("(VFloat (%s)%%float)" % float(x).hex() for x in a) for a in c["stream"])
+        lines.append('Eval vm_compute in enc_res (run_fun (ext (%s)%%float) 700 approximate_capacity_def [%s; VInt (%d); VInt (%d); VInt (%d); VBool %s; VBool %s; %s]).'
+                     % (float(10 ** c["tol"]).hex(), arr2, c["tol"], c["repeats"], c["maxit"], "true" if c["process"] else "false",
+                        "true" if c["verbose"] else "false", stream))
+    open(os.path.join(work, "SemCasesCapacity.v"), "w").write("\n".join(lines) + "\n")
+    rc, log = _compile(work, "SemCasesCapacity.v")
+    if rc != 0:
+        return {"cases": len(cases), "compared": 0, "error": log[-600:]}
+    got = [[int(x) for x in re.findall(r"-?\d+", blk.split(": list Z")[0])] for blk in log.split("= ")[1:]]
+    if len(got) != len(cases):
+        return {"cases": len(cases), "compared": 0, "error": "parsed %d answers for %d cases" % (len(got), len(cases))}
+    prog = ("import sys, json, io, contextlib, math, warnings\nsys.path.insert(0, %r)\nimport numpy as np\nimport dsw\nimport dsw.graphized as G\n"
+            "warnings.simplefilter('ignore')\n"
+            "EX = {ValueError: 1, IndexError: 2, TypeError: 3, OverflowError: 4, KeyError: 5}\n"
+            "def encf(x):\n"
+            "    x = float(x)\n"
+            "    m, e = math.frexp(abs(x))\n"
+            "    return [11, 1 if x < 0 else 0, int(m * 2 ** 53), e]\n"
+            "def enc(v):\n"
+            "    if isinstance(v, (float, np.floating)): return encf(v)\n"
+            "    if isinstance(v, (list, tuple)):\n"
+            "        out = [2 if isinstance(v, list) else 3, len(v)]\n"
+            "        for x in v: out += enc(x)\n"
+            "        return out\n"
+            "    return [99]\n"
+            "class Stream:\n"
+            "    def __init__(self, arrays): self.arrays = [np.array(a, dtype=float) for a in arrays]\n"
+            "    def random(self, size=None):\n"
+            "        a = self.arrays.pop(0)\n"
+            "        assert size == (len(a),)\n"
+            "        return a\n"
+            "G.log2 = lambda x: x\n"
+            "out = []\n"
+            "for c in json.load(sys.stdin):\n"
+            "    G.random = Stream(c['stream'])\n"
+            "    try:\n"
+            "        with contextlib.redirect_stdout(io.StringIO()):\n"
+            "            r = dsw.approximate_capacity(np.array(c['rows'], dtype=int), c['tol'], c['repeats'], c['maxit'], c['process'], c['verbose'])\n"
+            "        out.append([0] + enc(r))\n"
+            "    except Exception as e:\n"
+            "        out.append([1, EX.get(type(e), 6)])\n"
+            "print(json.dumps({'out': out, 'imports_ok': hasattr(G, 'log2') and hasattr(G, 'random')}))\n" % (repo,))
+    p = subprocess.run(["/venv/bin/python", "-c", prog], input=json.dumps(cases), stdout=subprocess.PIPE, stderr=subprocess.PIPE,
+                       universal_newlines=True, env=dict(os.environ, PYTHONHASHSEED="0"))
+    if p.returncode != 0:
+        return {"cases": len(cases), "compared": 0, "error": p.stderr[-600:]}
+    want = json.loads(p.stdout)["out"]
+    res = {"cases": len(cases), "compared": 0, "stuck": 0, "fuel": 0, "disagreements": [], "raised": 0,
+           "externals": "log2 := identity on both sides; 10 ** t := CPython's float; numpy.random.random := a given stream"}
+    for c, g, w in zip(cases, got, want):
+        if g[:1] == [3]:
+            res["stuck"] += 1
+            continue
+        if g[:1] == [2]:
+            res["fuel"] += 1
+            continue
+        res["compared"] += 1
+        res["raised"] += int(w[:1] == [1])
+        if g != w and len(res["disagreements"]) < 5:
+            res["disagreements"].append({"function": "approximate_capacity", "args": {k: v for k, v in c.items() if k != "stream"},
+                                         "minipy": g[:40], "cpython": w[:40]})
     return res
 
 
